@@ -272,3 +272,45 @@ def is_variant_at(body, blk, variant):
     """some value is known to be the unit variant `variant` at block blk (a guard of variant_guards dominates blk)"""
     from analysis import cfg as _cfg
     return any(_cfg.edge_dominates(body, (g.block, g.target), blk) for g, x in variant_guards(body, variant))
+
+
+def iteration_table(body, loop, counters):
+    """per feasible path of one iteration of `loop` (analysis.paths): {'variants': [(tree, {names})], 'atoms': [(tree, pol)],
+    'delta': {role: constant change of the counter local, None if not a constant step}, 'calls': [(term, [arg trees])]} where the
+    argument trees are expressed over the counter values at the START of the iteration. `counters` maps a role name to a local."""
+    from analysis import paths as _paths, poly as _poly
+    from analysis.sym import peel as _peel
+    ps = _paths.iteration_paths(body, loop)
+    if ps is None:
+        return None
+    rows = []
+    for p in ps:
+        pe = _paths.eval_path(body, p)
+        feasible = True
+        for t, names in pe.variants:
+            c = _peel(t)
+            if isinstance(c, tuple) and c and c[0] == 'agg' and c[1] == 'adt' and c[2].rsplit('::', 1)[-1] not in names:
+                feasible = False
+        for t, pol in pe.atoms:
+            c = _core(t)
+            if c[0] == 'const' and len(c) > 2 and c[2] in (0, 1) and bool(c[2]) != pol:
+                feasible = False
+        if not feasible:
+            continue
+        delta = {}
+        for role, l in counters.items():
+            v = pe.env.get(l)
+            if v is None:
+                delta[role] = 0
+                continue
+            start = ('var', body.var_name(l) or '', l)
+            d = _poly._add(_poly.poly(v), _poly.poly(start), -1)
+            if d == {}:
+                delta[role] = 0
+            elif list(d.keys()) == [()]:
+                delta[role] = d[()]
+            else:
+                delta[role] = None
+        calls = [(e[1], e[2]) for e in pe.events if e[0] == 'call']
+        rows.append({'variants': pe.variants, 'atoms': pe.atoms, 'delta': delta, 'calls': calls, 'path': p})
+    return rows
